@@ -33,28 +33,32 @@ type c11Case struct {
 }
 
 type C11Line struct {
-	Src       string `json:"src"`
-	Normal    bool   `json:"normal"`
-	Text      string `json:"text"`
-	Err       string `json:"err"`
-	Printed   string `json:"printed"`
-	Err2      string `json:"err2"`
-	Printed2  string `json:"printed2"`
-	SameValue bool   `json:"same_value"` // text and printed evaluate alike in every context tried
-	ValueDiff string `json:"value_diff"`
-	IdentSame bool   `json:"ident_same"` // identity refactoring of the embedding template leaves its value unchanged
-	IdentDiff string `json:"ident_diff"`
-	RenameOK  bool   `json:"rename_ok"` // renaming a -> z changes exactly the references to a
+	Src        string `json:"src"`
+	Normal     bool   `json:"normal"`
+	Text       string `json:"text"`
+	Err        string `json:"err"`
+	Printed    string `json:"printed"`
+	Err2       string `json:"err2"`
+	Printed2   string `json:"printed2"`
+	SameValue  bool   `json:"same_value"` // text and printed evaluate alike in every context tried
+	ValueDiff  string `json:"value_diff"`
+	IdentSame  bool   `json:"ident_same"` // identity refactoring of the embedding template leaves its value unchanged
+	IdentDiff  string `json:"ident_diff"`
+	RenameOK   bool   `json:"rename_ok"` // renaming a -> z changes exactly the references to a
 	RenameDiff string `json:"rename_diff"`
-	ScaleOnly bool   `json:"scale_only"` // the text spells a number with non-canonical scale/leading zeros (known family)
-	HasPow    bool   `json:"has_pow"`
-	Canon     string `json:"canon"` // the spec's canonical rendering
-	Desc      string `json:"desc"`
-	Panic     string `json:"panic"`
+	ScaleOnly  bool   `json:"scale_only"` // the text spells a number with non-canonical scale/leading zeros (known family)
+	HasPow     bool   `json:"has_pow"`
+	Canon      string `json:"canon"` // the spec's canonical rendering
+	Desc       string `json:"desc"`
+	Panic      string `json:"panic"`
 }
 
 var numSpellings = [][]string{{"2", "3"}, {"2.50", "3.0"}, {"007", "02"}}
-var textSpellings = []string{`"s"`, `"a\"b"`, `"é\n"`, `"a\u005c"`}
+var textSpellings = []string{`"s"`, `"a\"b"`, `"é\n"`, `"a\u005c"`,
+	`"x\n\"y\\z"`, // a line break together with an escaped quote and an escaped backslash
+	`"` + strings.Repeat("long text ", 14) + `"`, // 140 characters
+	`"\t\u0007\r"`, // control characters
+	`"a'b😀"`}
 
 // render the spec's token sequence the way String() lays it out; variant selects literal spellings
 func renderToks(toks []etok, variant int, canonical bool) string {
@@ -72,7 +76,9 @@ func renderToks(toks []etok, variant int, canonical bool) string {
 		case "num":
 			sp := numSpellings[0]
 			if !canonical {
-				sp = numSpellings[variant%len(numSpellings)]
+				if variant < 4 {
+					sp = numSpellings[variant%len(numSpellings)]
+				}
 			}
 			if t.V == "2" {
 				sb.WriteString(sp[0])
@@ -366,7 +372,7 @@ func c11Print(args []string) error {
 				return nil
 			}
 			canon := renderToks(c.Toks, 0, true)
-			for v := 0; v < 4; v++ {
+			for v := 0; v < len(textSpellings); v++ {
 				if c.Variant >= 0 && c.Variant != v {
 					continue
 				}
